@@ -9,9 +9,11 @@ M: transcription of
               the lg_crcv with its copy of the request buffer, the application token and the LIST OF OBSERVE TOKENS of a
               large FETCH (`obs_token`, `obs_token_cnt`), grown by realloc, one coap_bin_const_t per block
      server   coap_handle_request_put_block (Block1, no BERT / Q-Block, COAP_BLOCK_SINGLE_BODY, blocks in any order, one
-              resource, no Request-Tag, one block size per transfer), coap_block_build_body, coap_block_delete_lg_srcv:
-              the lg_srcv with the body under reassembly (`body_data`, coap_new_binary / coap_resize_binary) and the token
-              of a final block that arrived early (`last_token`)
+              resource -- of its own or the UNKNOWN resource --, no Request-Tag, one block size per transfer),
+              coap_block_build_body, coap_block_delete_lg_srcv:
+              the lg_srcv with the body under reassembly (`body_data`, coap_new_binary / coap_resize_binary), the token
+              of a final block that arrived early (`last_token`) and the copy of the URI path kept for a transfer to the
+              unknown resource (`uri_path`)
 
 A read or write outside the token list is `none` (the C would touch memory it does not own); the decisions about which
 blocks have arrived are C09's model (Coap.Block.recvLoop / checkAllBlocksIn / totalBlocks) — here they are only consulted,
@@ -185,11 +187,13 @@ structure ASrcv where
   szx : Nat := 0
   noMoreSeen : Bool := false                  -- a block without More arrived while others were missing
   lastTok : Option (Nat × Nat) := none        -- last_token: (serial, length)
+  uriPath : Option Nat := none                -- uri_path: the copy kept for a transfer to the unknown / proxy-URI resource
   deriving Repr, DecidableEq
 
-/-- `coap_block_delete_lg_srcv(session, lg_srcv)` (uri_path is NULL for a resource of its own) -/
+/-- `coap_block_delete_lg_srcv(session, lg_srcv)`: uri_path (NULL for a resource of its own), last_token, body_data, the
+lg_srcv -/
 def freeSrcv (lg : ASrcv) (h : Heap) : Heap :=
-  (freeOpt (ser lg.body) (freeOpt (ser lg.lastTok) h)).free lg.id
+  (freeOpt (ser lg.body) (freeOpt (ser lg.lastTok) (freeOpt lg.uriPath h))).free lg.id
 
 /-- `coap_block_build_body(body_data, length, data, offset, total)` with `data != NULL`: the body_data returned (NULL =
 `none`: whatever there was has been released) -/
@@ -250,14 +254,21 @@ def srcvDecide (lg : ASrcv) (m chunk tokLen : Nat) (h : Heap) : SOut × Option A
     | (some t, h2) => (.code 0, some { lg with noMoreSeen := true, lastTok := some (t, tokLen) }, h2)
   else (.deliver (bodyLen lg), none, freeSrcv lg h)
 
-/-- "locate the lg_srcv" / "Allocate lg_srcv to use for tracking" (one request) -/
-def srcvLocate (st : Option ASrcv) (szx : Nat) (size1 : Option Nat) (h : Heap) : Option ASrcv × Heap :=
+/-- "locate the lg_srcv" / "Allocate lg_srcv to use for tracking" (one request; `unk` = the resource is the unknown /
+proxy-URI resource: a second request, `lg_srcv->uri_path = coap_new_str_const(uri_path->s, uri_path->length)` — when it
+fails the lg_srcv, which is not yet in session->lg_srcv, is released with coap_free_type and the answer is 5.00) -/
+def srcvLocate (st : Option ASrcv) (szx : Nat) (size1 : Option Nat) (unk : Bool) (h : Heap) : Option ASrcv × Heap :=
   match st with
   | some lg => (some lg, h)
   | none =>
     match h.alloc with
     | (none, h1) => (none, h1)
-    | (some i, h1) => (some { id := i, totalLen := size1.getD 0, szx := szx }, h1)
+    | (some i, h1) =>
+      if unk then
+        match h1.alloc with
+        | (none, h2) => (none, h2.free i)
+        | (some p, h2) => (some { id := i, totalLen := size1.getD 0, szx := szx, uriPath := some p }, h2)
+      else (some { id := i, totalLen := size1.getD 0, szx := szx }, h1)
 
 /-- "if (update_data)": total_len is raised, the block is stored with coap_block_build_body, then the decision -/
 def srcvUpdate (lg : ASrcv) (rec' : Block.Ranges) (len offset m chunk tokLen : Nat) (h : Heap) : SOut × Option ASrcv × Heap :=
@@ -280,12 +291,12 @@ def srcvStore (cap : Nat) (lg : ASrcv) (num m len chunk tokLen : Nat) (h : Heap)
 
 /-- one Block1 request `(num, m, szx, payload length, Size1)` with a `tokLen`-byte token at the server; `st` = the
 lg_srcv of the resource, if there is one.  `cap` = COAP_RBLOCK_CNT. -/
-def srcvStep (cap : Nat) (st : Option ASrcv) (num m szx plen tokLen : Nat) (size1 : Option Nat) (h : Heap) :
+def srcvStep (cap : Nat) (st : Option ASrcv) (num m szx plen tokLen : Nat) (size1 : Option Nat) (unk : Bool) (h : Heap) :
     SOut × Option ASrcv × Heap :=
   let chunk := 2 ^ (szx + 4)
   if num = 0 ∧ m = 0 then (.app plen, st, h) else
   if ¬ plen > chunk ∧ m = 1 ∧ plen ≠ chunk then (.code 128, st, h) else
-  match srcvLocate st szx size1 h with
+  match srcvLocate st szx size1 unk h with
   | (none, h1) => (.code 160, none, h1)
   | (some lg, h1) =>
     if szx ≠ lg.szx then (.unmodelled, some lg, h1)
@@ -302,10 +313,11 @@ structure SCfg where
   szx : Nat
   tokLen : Nat
   size1 : Option Nat
+  unk : Bool := false                         -- the transfer goes to the unknown resource (`asrcvu`): uri_path is copied
   deriving Repr, DecidableEq
 
 def srcvEv (cfg : SCfg) (st : Option ASrcv) (h : Heap) : SEv → SOut × Option ASrcv × Heap
-  | .block num m plen => srcvStep cfg.cap st num m cfg.szx plen cfg.tokLen cfg.size1 h
+  | .block num m plen => srcvStep cfg.cap st num m cfg.szx plen cfg.tokLen cfg.size1 cfg.unk h
   | .drop =>
     match st with
     | some lg => (.code 1, none, freeSrcv lg h)
